@@ -576,6 +576,7 @@ func init() {
 		cases := fs.String("cases", "cases.ndjson", "")
 		out := fs.String("out", "trace.ndjson", "")
 		prop := fs.String("prop", "C13", "")
+		tag := fs.String("tag", "splitcase", "")
 		shard := fs.Int("shard", 0, "")
 		nshards := fs.Int("nshards", 1, "")
 		fs.Parse(args)
@@ -609,7 +610,7 @@ func init() {
 					c.Lines[i] = []string{}
 				}
 			}
-			splitEvent(f, fmt.Sprintf("%s-case-%d", *prop, kk), c.Lines)
+			splitEvent(f, fmt.Sprintf("%s-%s-%d", *prop, *tag, kk), c.Lines)
 			n++
 		})
 		summary(map[string]interface{}{"events": n})
@@ -619,6 +620,7 @@ func init() {
 		cases := fs.String("cases", "cases.ndjson", "")
 		out := fs.String("out", "trace.ndjson", "")
 		prop := fs.String("prop", "C02", "")
+		tag := fs.String("tag", "nexuscase", "")
 		shard := fs.Int("shard", 0, "")
 		nshards := fs.Int("nshards", 1, "")
 		fs.Parse(args)
@@ -663,7 +665,7 @@ func init() {
 				if len(txt) > 400 {
 					txt = txt[:400] + "..."
 				}
-				meta[id] = map[string]interface{}{"case": fmt.Sprintf("%s-case-%d", *prop, kk), "entry": entry, "input": txt, "bytes": len(data), "dev": c.Kind, "expect": c.NTrees}
+				meta[id] = map[string]interface{}{"case": fmt.Sprintf("%s-%s-%d", *prop, *tag, kk), "entry": entry, "input": txt, "bytes": len(data), "dev": c.Kind, "expect": c.NTrees}
 			}
 		})
 		res := runReadJobs(jobs, 15*time.Second)
